@@ -209,12 +209,12 @@ func TestInlinerSmoke(t *testing.T) {
 		}
 	}
 	for _, want := range []string{
-		"xs = append(xs, 1)",       // accumulator parameter substituted, literal argument substituted
+		"xs = append(xs, 1)",           // accumulator parameter substituted, literal argument substituted
 		"seen = make(map[string]bool)", // result local unified with the target
-		"a.name = \"x\"",           // variadic loop unrolled with the element substituted
+		"a.name = \"x\"",               // variadic loop unrolled with the element substituted
 		"b.name = \"x\"",
-		"a.n += 2",                 // closure expanded with both arguments substituted
-		"s.byName(a.name)",         // a query with a search loop stays a call (postcondition instead)
+		"a.n += 2",         // closure expanded with both arguments substituted
+		"s.byName(a.name)", // a query with a search loop stays a call (postcondition instead)
 	} {
 		if !strings.Contains(body, want) {
 			t.Errorf("expected %q in the expanded Caller:\n%s", want, body)
